@@ -100,7 +100,12 @@ class Acc:
         if len(self.samples) < limit:
             self.samples.append(obj)
 
+    watch = None        # (oracle, canonical case) looked for during a chunk-level replay
+    watch_hit = False
+
     def violation(self, oracle, case, observed=None, expected=None):
+        if Acc.watch is not None and Acc.watch[0] == oracle and jdump(case) == Acc.watch[1]:
+            Acc.watch_hit = True
         e = match_known(self.prop, oracle, case)
         if e is not None:
             self.known[e["_idx"]] += 1
@@ -160,6 +165,51 @@ def _replay_with_alarm(fn, case):
         signal.signal(signal.SIGALRM, old)
 
 
+CHUNK_REPLAY_LIMIT = 300
+
+
+def _chunk_ref(v):
+    from . import pool
+
+    work, chunks, _init = pool.RUNS[v["chunk"][0]]
+    return {"work": work.__module__ + "." + work.__name__, "payload": chunks[v["chunk"][1]]}
+
+
+def chunk_replay(v):
+    """A violation that does not reproduce alone may depend on what the worker's long-lived context processed before it.
+    Re-runs the whole chunk it came from, in this process, with fresh state, and tells whether the same (oracle, case)
+    is reported again.  Returns True / False, or None when the violation carries no chunk reference."""
+    import signal
+    from . import pool
+
+    ref = v.get("chunk")
+    if not ref or ref[0] >= len(pool.RUNS):
+        return None
+    work, chunks, init = pool.RUNS[ref[0]]
+    keep = Acc.current
+    Acc.watch, Acc.watch_hit = (v["oracle"], jdump(v["case"])), False
+
+    def _h(*a):
+        raise _ReplayTimeout()
+
+    old = signal.signal(signal.SIGALRM, _h)
+    signal.alarm(CHUNK_REPLAY_LIMIT)
+    try:
+        if init is not None:
+            work(chunks[ref[1]], frozenset(), lambda i: None, init())
+        else:
+            work(chunks[ref[1]], frozenset(), lambda i: None)
+    except BaseException:   # Bail, timeout, or the chunk failing: what counts is whether the case was seen again
+        pass
+    finally:
+        signal.alarm(0)
+        signal.signal(signal.SIGALRM, old)
+        hit = Acc.watch_hit
+        Acc.watch, Acc.watch_hit = None, False
+        Acc.current = keep
+    return hit
+
+
 class Run:
     def __init__(self, prop, tier, seed, level):
         self.prop, self.tier, self.seed, self.level = prop, tier, seed, level
@@ -211,13 +261,20 @@ class Run:
                             oracle, json.dumps(v["case"], default=str)[:200]))
                         continue
                     if again is not None and not any(a["oracle"] == oracle for a in again):
-                        print("HARNESS-ERROR property=%s oracle=%s violation did not reproduce: %s" % (
-                            self.prop, oracle, json.dumps(v["case"], default=str)[:400]))
-                        bad_harness = True
-                        continue
+                        # not alone on a fresh context - does it depend on the cases before it in its chunk?
+                        if chunk_replay(v):
+                            self.log("note: %s case reproduces only after the cases before it in its chunk (state left behind "
+                                     "by an earlier case); the replay file names the chunk" % oracle)
+                            v = dict(v, state_dependent=True)
+                        else:
+                            print("HARNESS-ERROR property=%s oracle=%s violation did not reproduce: %s" % (
+                                self.prop, oracle, json.dumps(v["case"], default=str)[:400]))
+                            bad_harness = True
+                            continue
                 os.makedirs(rdir, exist_ok=True)
                 body = {"property": self.prop, "oracle": oracle, "tier": self.tier, "case": v["case"],
-                        "observed": v["observed"], "expected": v["expected"],
+                        "observed": v["observed"], "expected": v["expected"], "state_dependent": bool(v.get("state_dependent")),
+                        "chunk": _chunk_ref(v) if v.get("state_dependent") else None,
                         "created": time.strftime("%Y-%m-%dT%H:%M:%SZ", time.gmtime())}
                 name = "%016x.json" % h64([oracle, v["case"]])
                 path = os.path.join(rdir, name)
